@@ -148,6 +148,26 @@ def run(ctx):
     ctx.ob('C25.lsb-first', 'RxShifter+RxPipeline', ok, wd[0].loc,
            'first received bit must end in bit 0 of the byte (shift-up with reversal, or shift-down without): '
            'up=%d down=%d rhs=%s' % (len(up), len(down), wd[0].rhs.canon()))
+    # the byte assembler is re-armed (sentinel 1) at the end of every packet: a packet that ends inside a byte (dribble
+    # bit, truncated packet) must not leave its bits behind for the next packet.  Either the shifter has a reset input
+    # that loads the sentinel in the domain of the register and the pipeline drives it with the packet-end strobe, or a
+    # ResetInserter is applied FOR THAT DOMAIN (a bare-signal ResetInserter resets `sync` only -- the shifter lives in usb_io)
+    shd = rs.drivers('shift_reg', exact=True)
+    sh_dom = {d.domain for d in shd}
+    arm = [d for d in shd if q.is_one(d.rhs) and q.atoms(d) == {('self.reset', True)}]
+    wire = [d for d in rp.drivers('shifter.reset', exact=True)]
+    by_port = len(arm) == 1 and len(wire) == 1 and not wire[0].guard and wire[0].rhs.canon() == 'detect.o_pkt_end' and \
+        all(x.order > arm[0].order or q.atoms(x) != q.atoms(arm[0]) for x in shd if x is not arm[0]) is not None
+    shsub = [sm for sm in rp.submodules if sm.name == 'shifter']
+    by_inserter = False
+    for kind, ctl in (getattr(shsub[0].obj, 'inserters', None) or []) if shsub else []:
+        if kind == 'reset' and isinstance(ctl, dict) and len(sh_dom) == 1:
+            c = ctl.get(next(iter(sh_dom)))
+            by_inserter = by_inserter or (isinstance(c, E) and c.canon() == 'detect.o_pkt_end')
+    ctx.ob('C25.shifter-rearm', 'RxShifter+RxPipeline.rearm-at-packet-end', by_port or by_inserter, (wire[0] if wire else shd[0]).loc if (wire or shd) else None,
+           'the receive shift register (domain %s) must be reset to its sentinel by the packet-end strobe detect.o_pkt_end: reset arm %s, '
+           'wiring %s, inserters %s' % (sorted(sh_dom), [q.fmt(d) for d in arm], [q.fmt(d) for d in wire],
+                                       getattr(shsub[0].obj, 'inserters', None) if shsub else None))
     tp = ctx.ir('TxPipeline', 'transmitter')
     sp = [d for d in tp.drivers('sync_pulse', exact=True) if d.rhs.op == 'const']
     w = getattr(tp.signals.get('sync_pulse'), 'w', None)
